@@ -109,7 +109,7 @@ def phase2(limit, budget):
     for name in names:
         if name in done:
             continue
-        if n >= limit:
+        if n >= limit or os.path.exists(os.path.join(OUT, "STOP")):
             break
         n += 1
         f = name.rsplit("-", 1)[0]
